@@ -17,7 +17,7 @@ from checks import c20, c21
 
 ARCHS = ["x86_32", "x86_64", "arml", "aarch64l", "mips32l", "ppc32b", "msp430"]
 FUNCS = ["arr_loop", "loop_cond", "nested", "switch4"]
-STEP_LIMIT = 3000
+STEP_LIMIT = 6000
 
 
 # ---------------------------------------------------------------------------------------------
@@ -121,7 +121,7 @@ def plan_scenario(prog, plan, nstops, backend):
     sent = scn["script"][0]
     script = [sent]
     if plan.get("mode") == "after_run1":
-        script += [["run", prog["entry"]], ["reset"]]
+        script += [["run", prog["entry"]], ["reset"], ["clear_exc"]]
     for op in plan["pre"]:
         script.append([op[0], op[1], op[2], plan["specs"][op[1]]])
     script.append(["init_run", prog["entry"]])
@@ -327,6 +327,10 @@ def plan_features(plan, cls):
         if op[0] == "set_bp":
             f.add("set_breakpoint")
     same = collections.Counter(op[2] for op in plan["pre"])
+    for spec in plan["specs"].values():
+        for act in spec.get("after", []):
+            if act[1] in ("bp", "set_bp"):
+                same[act[3]] += 1
     if any(v > 1 for v in same.values()):
         f.add("shared-address")
     for spec in plan["specs"].values():
